@@ -3,7 +3,7 @@
 # Confirms in the scratch worktree /tmp/wt/<prop>: builds, passes the pinned suite, demo fails with / passes without.
 # On success stores /verif/seeded/<prop>-<mk>/{patch.diff,demo,meta.json(partial)}
 prop=$1; mk=$2; demo=$3; dst=$4; rx=$5
-wt=/tmp/wt/$prop; out=/tmp/wt/out/$prop/$mk
+root=${WTROOT:-/tmp/wt}; wt=$root/$prop; out=$root/out/$prop/$mk
 export GOFLAGS=-mod=mod GOPROXY=off GOSUMDB=off GOTOOLCHAIN=local
 cd $wt || exit 2
 git checkout -q -- . && git clean -fdq
